@@ -124,8 +124,9 @@ def presets(ctx):
             ("USA", dict(scenario="no_resilient_foods", meat_strategy="feed_only_ruminants", NMONTHS=72)),
             # a country whose no-feed round stays just below a threshold other than 100 (the *_after_10_percent_fed schedules)
             ("JPN", dict(scenario="no_resilient_foods", shutoff="continued_after_10_percent_fed", NMONTHS=48)),
-            ("TWN", dict(scenario="no_resilient_foods", shutoff="long_delayed_shutoff_after_10_percent_fed", NMONTHS=48))]
-    Ts = [None, 0, 10, 50, 100, None, None, None, None, None]
+            ("TWN", dict(scenario="no_resilient_foods", shutoff="long_delayed_shutoff_after_10_percent_fed", NMONTHS=48)),
+            ("WOR", dict(scale="global", NMONTHS=72))]
+    Ts = [None, 0, 10, 50, 100, None, None, None, None, None, None]
     for j, (iso, o) in enumerate(base):
         t = Ts[j % len(Ts)]
         o = dict(o)
